@@ -576,8 +576,9 @@ class Norm:
 
     # ---- conditions --------------------------------------------------------------------------------------------------------
     def bool_body(self, n):
-        """(sub-normaliser, [condition nodes]) when n calls a helper/lambda the reference tree did not have whose body is
-        `if (c1) return true; if (c2) return true; ... return false;`: the call equals c1 || c2 || ..."""
+        """(sub-normaliser, early, final) when n calls a helper/lambda the reference tree did not have whose body is declarations of
+        single-definition locals, `if (c) return <true|false>;` statements and a final `return e;`:
+        early = [(condition node, returned constant)], final = e (or a constant)."""
         if n is None or self._depth > 5:
             return None
         is_lambda_call = n['k'] == 'CXXOperatorCallExpr' and n.get('op') == '()'
@@ -587,22 +588,23 @@ class Norm:
         callee = prog.funcs.get(n.get('callee', {}).get('fid'))
         if callee is None or callee.body is None or not prog.is_new_function(callee) or not callee.file.startswith(prog.root):
             return None
-        body = kids(callee.body)
-        if len(body) < 2 or body[-1]['k'] != 'ReturnStmt' or self.cval(kids(body[-1])[0]) != 0 and True:
-            pass
-        conds = []
+        body = [st for st in kids(callee.body) if st.get('mac') not in ('assert', 'ASSERT', 'ASSERT_WITH_MSG')]
+        if len(body) < 2 or body[-1]['k'] != 'ReturnStmt':
+            return None
+        early = []
         for st in body[:-1]:
+            if st['k'] == 'DeclStmt' and all(v['k'] == 'VarDecl' and single_def(callee, v['id']) is not None for v in kids(st)):
+                continue
             if st['k'] != 'IfStmt':
                 return None
             ks = kids(st)
             if len(ks) != 2:
                 return None
             r = ks[1] if ks[1]['k'] == 'ReturnStmt' else (kids(ks[1])[0] if ks[1]['k'] == 'CompoundStmt' and len(kids(ks[1])) == 1 else None)
-            if r is None or r['k'] != 'ReturnStmt' or (strip_casts(kids(r)[0]).get('cv') != 1):
+            if r is None or r['k'] != 'ReturnStmt' or strip_casts(kids(r)[0]).get('cv') not in (0, 1):
                 return None
-            conds.append(ks[0])
-        last = body[-1]
-        if last['k'] != 'ReturnStmt' or strip_casts(kids(last)[0]).get('cv') != 0 or not conds:
+            early.append((ks[0], strip_casts(kids(r)[0])['cv']))
+        if not early:
             return None
         args = kids(n)[2:] if is_lambda_call else kids(n)[1:]
         if len(args) != len(callee.params):
@@ -619,17 +621,29 @@ class Norm:
         sub.this_prefix = self.this_prefix
         if self.env.get('__targs__'):
             sub.env['__targs__'] = 1
-        return sub, conds
+        return sub, early, kids(body[-1])[0]
 
     def flatten(self, n, op):
-        """[(normaliser, node)] members of a conjunction/disjunction, reading through transparent calls"""
+        """[(normaliser, node, polarity)] members of a conjunction/disjunction, reading through transparent calls; polarity False
+        means the member is the negation of the node"""
         m = self.resolve(n)
-        if op == '||':
-            bb = self.bool_body(m)
-            if bb is not None:
+        bb = self.bool_body(m)
+        if bb is not None:
+            sub, early, final = bb
+            fc = strip_casts(final).get('cv')
+            if op == '||' and all(k == 1 for c, k in early):
+                # if (c1) return true; ... return e;   ==  c1 || ... || e
                 out = []
-                for c in bb[1]:
-                    out += bb[0].flatten(c, '||')
+                for c, k in early:
+                    out += sub.flatten(c, '||')
+                if fc != 0:
+                    out += sub.flatten(final, '||')
+                return out
+            if op == '&&' and all(k == 0 for c, k in early):
+                # if (c1) return false; ... return e;  ==  !c1 && ... && e
+                out = [(sub, c, False) for c, k in early]
+                if fc != 1:
+                    out += sub.flatten(final, '&&')
                 return out
         ex = self.expand(m)
         if ex is not None:
@@ -637,7 +651,7 @@ class Norm:
         if m is not None and m['k'] == 'BinaryOperator' and m.get('op') == op:
             a, b = kids(m)
             return self.flatten(a, op) + self.flatten(b, op)
-        return [(self, m)]
+        return [(self, m, True)]
 
     def atom(self, n, truth=True):
         at = self._atom(n, truth)
@@ -685,6 +699,8 @@ class Norm:
                     if not allowed:
                         return FALSE
                     return ('in', e, allowed)
+                if op in ('==', '!=') and cb == 0 and off == 0:
+                    return ('truthy', e, (op == '!=') == truth)          # x != 0 is "x is non-zero"
                 if op in ('==', '!='):
                     return ('eq' if (op == '==') == truth else 'ne', e, cb)
                 if not truth:
@@ -712,8 +728,8 @@ class Norm:
     def conj(self, n):
         """atom set of a conjunction; None when it is constantly false"""
         out = set()
-        for nm, a in self.flatten(n, '&&'):
-            at = nm.atom(a, True)
+        for nm, a, pol in self.flatten(n, '&&'):
+            at = nm.atom(a, pol)
             if at == FALSE:
                 return None
             if at != TAUT:
@@ -722,8 +738,8 @@ class Norm:
 
     def disj(self, n):
         out = set()
-        for nm, a in self.flatten(n, '||'):
-            c = nm.conj(a)
+        for nm, a, pol in self.flatten(n, '||'):
+            c = nm.conj(a) if pol else (None if nm.atom(a, False) == FALSE else frozenset({nm.atom(a, False)} - {TAUT}))
             if c is None:
                 continue
             out.add(c)
@@ -744,13 +760,22 @@ class Norm:
                 continue
             if not t and self.s(m) in loop_conds:
                 continue
-            at = self.atom(m, t)
-            if at == FALSE:
-                return None
-            if '__begin' in str(at) or '__end' in str(at):
-                continue          # compiler-generated range-for iteration test
-            if at != TAUT:
-                out.add(at)
+            if t:
+                ats = self.conj(m)
+                if ats is None:
+                    return None
+            else:
+                ats = set()
+                for nm2, a2, pol2 in self.flatten(m, '||'):
+                    at = nm2.atom(a2, not pol2)
+                    if at == FALSE:
+                        return None
+                    ats.add(at)
+            for at in ats:
+                if '__begin' in str(at) or '__end' in str(at):
+                    continue          # compiler-generated range-for iteration test
+                if at != TAUT:
+                    out.add(at)
         return frozenset(out)
 
     def show_atom(self, a):
